@@ -22,6 +22,10 @@ ASSUMPTIONS = [
 ]
 
 REG = {
+    'C08': {'module': 'TFV.Properties.C08',
+            'theorems': ['C08.floor_exact', 'C08.ceil_exact', 'C08.trunc_exact', 'C08.round_exact', 'C08.fract_exact', 'C08.trunc_add_fract'],
+            'clauses': {'floor/ceil/trunc/round/fract of a valid x: exact value and valid result, all magnitudes up to f64::MAX': 'full',
+                        'trunc(x) + fract(x) = x exactly': 'full'}},
     'C20': {'module': 'TFV.Properties.C20',
             'theorems': ['C20.de_seq_ok_valid', 'C20.de_map_ok_valid', 'C20.de_ser_roundtrip_seq', 'C20.de_ser_roundtrip_map', 'C20.de_ser_roundtrip_map_rev',
                          'C20.de_seq_rejects_invalid', 'C20.de_map_rejects_invalid', 'C20.de_seq_wrong_length', 'C20.de_map_duplicate_hi', 'C20.de_map_unknown_first', 'C20.ser_shape'],
